@@ -418,4 +418,23 @@ theorem fairRoundT_spec (I : OnlineIface P core cfg S) (hc : cfg.Ok) (hs : Sim P
         have h2 := m11 hqm
         rw [h1, h2]; rfl
 
+theorem fairRoundsT_succ (draws : List Nat) (alt : P.Alt) (k : Nat) (s : FairState P) :
+    fairRoundsT draws alt (k + 1) s = (fairRoundT draws alt s).bind (fairRoundsT draws alt k) := by
+  simp only [fairRoundsT]
+  cases fairRoundT draws alt s <;> rfl
+
+/-- **timed progress, online phase, every datagram delivered**: from two online connections with
+matching tokens, four rounds of the fair suffix — ticks at the deadlines; everything sent in the
+suffix, the answers to resend requests included, is delivered exactly once and in order — all return
+and end quiescent -/
+theorem fair_progress (I : OnlineIface P core cfg S) (hc : cfg.Ok) (hs : Sim P core cfg) (hl : LocT P S)
+    (draws : List Nat) (alt : P.Alt) {ta tb : I.Tok} {w : World P} (h : OnlineW I ta tb w) :
+    ∃ s', fairRoundsT draws alt 4 (FairState.start w) = some s' ∧ s'.w.quiescent := by
+  obtain ⟨s1, L1, b1, e1, o1, R1⟩ := fairRoundT_spec I hc hs hl draws alt (OnlineF.start h)
+  obtain ⟨s2, L2, b2, e2, o2, R2⟩ := fairRoundT_spec I hc hs hl draws alt o1
+  obtain ⟨s3, L3, b3, e3, o3, R3⟩ := fairRoundT_spec I hc hs hl draws alt o2
+  obtain ⟨s4, L4, b4, e4, o4, R4⟩ := fairRoundT_spec I hc hs hl draws alt o3
+  refine ⟨s4, ?_, o4.on.quiescent (four_roundsT R1 R2 R3 R4)⟩
+  simp only [fairRoundsT_succ, e1, e2, e3, e4, Option.bind_some, fairRoundsT]
+
 end Tw.NetSim
